@@ -17,6 +17,11 @@ def loop_head(fn, kind="WhileStmt"):
 
 
 def run(prog, chk):
+    policy_objects_table(prog, chk)
+    _run(prog, chk)
+
+
+def _run(prog, chk):
     chk.explanation = (
         "R6 finite abstract evaluation of policy.c: (1) the loop body of Rule_verify is evaluated for every "
         "combination of element type {BASIC, AND, OR, unknown} x rule status {KSI_OK, error} x verdict {OK, NA, FAIL} "
@@ -295,3 +300,40 @@ def run(prog, chk):
 
 def fmt_out(o):
     return "continue" if o[0] else "stop returning %s" % (hex(o[1]) if isinstance(o[1], int) else o[1])
+
+
+def policy_objects_table(prog, chk):
+    """KSI_Policy_create / KSI_Policy_clone / KSI_Policy_setFallback: the object the engine later walks has the rules, the name and the
+    fallback chain the documentation promises (a clone keeps the fallback of its original)."""
+    from ksirules.interp import inline_model, succeed_model
+    chk.rule("C05.objects", "policy objects: create = (rules, name, no fallback); clone = (rules, name, fallback) of the original; setFallback", floor=3)
+    for fname, args, want in (
+            ("KSI_Policy_create", {"ctx": Ptr("ctx"), "rules": Ptr("RULES"), "name": Ptr("NAME")}, {"rules": Ptr("RULES"), "policyName": Ptr("NAME"), "fallbackPolicy": 0}),
+            ("KSI_Policy_clone", {"ctx": Ptr("ctx"), "policy": Ptr("ORIG")}, {"rules": Ptr("ORULES"), "policyName": Ptr("ONAME"), "fallbackPolicy": Ptr("OFALLBACK")})):
+        fn = prog.fn(fname, "policy.c")
+        pn = [p["n"] for p in fn.params]
+        inputs = {pn[-1]: Ptr("OUT"), "ORIG->rules": Ptr("ORULES"), "ORIG->policyName": Ptr("ONAME"), "ORIG->fallbackPolicy": Ptr("OFALLBACK")}
+        vals = list(args.values())
+        for k, v in zip(pn[:-1], vals):
+            inputs[k] = v
+        ov = {"KSI_malloc": lambda I, p, n, a: Ptr("NEWPOL")}
+        helpers = {n["fn"] for b, i, n in fn.calls() if n.get("fn") and any(g.unit == "policy.c" and g.name.startswith("KSI_Policy_") for g in prog.functions.get(n["fn"], []))}
+        I = Interp(fn, inputs=inputs, call_model=inline_model(prog, helpers, fallback=succeed_model(prog, ov)) if helpers else succeed_model(prog, ov),
+                   on_unknown="stop", prog=prog)
+        paths = I.run()
+        chk.paths += len(paths)
+        if len(paths) != 1 or paths[0].undetermined:
+            raise AnalysisBroken("%s: evaluation not determined: %s" % (fname, [q.undetermined[:1] for q in paths]))
+        q = paths[0]
+        out = [t[2] for t in q.stores("*" + pn[-1])] + [t[2] for t in q.stores("OUT")]
+        obj = out[-1].what if out and isinstance(out[-1], Ptr) else None
+        got = {f: I.read(q, "%s->%s" % (obj, f)) for f in want} if obj else {}
+        chk.ob("C05.objects", fname, q.ret == 0 and got == want, "expected fields %s; source hands out %s with %s (status %s)" % (want, obj, got, q.ret),
+               loc=fn.loc(), fn=fn)
+    fs = prog.fn("KSI_Policy_setFallback", "policy.c")
+    pn = [p["n"] for p in fs.params]
+    inputs = {pn[0]: Ptr("ctx"), pn[1]: Ptr("P"), pn[2]: Ptr("FB"), "P->fallbackPolicy": 0}
+    I = Interp(fs, inputs=inputs, call_model=succeed_model(prog), on_unknown="stop", prog=prog)
+    paths = I.run()
+    ok = len(paths) == 1 and not paths[0].undetermined and paths[0].ret == 0 and I.read(paths[0], "P->fallbackPolicy") == Ptr("FB")
+    chk.ob("C05.objects", "KSI_Policy_setFallback", ok, "the policy's fallback becomes the given policy", loc=fs.loc(), fn=fs)
